@@ -148,12 +148,15 @@ def run_reader(stream, pf=7, qe=1, parsing=True, validate=1, msgmode=0, handler=
         elif handler:
             kw["errorhandler"] = lambda e: reports.append(impl.exn_name(e))
         try:
-            with impl.quiet():
+            with impl.quiet(), impl.watchdog(30.0):
                 rdr = UBXReader(src, **kw)
                 for raw, parsed in rdr:
                     items.append((bytes(raw), parsed))
                     if len(items) > max_items:
                         raise RuntimeError("runaway iteration")
+        except impl.Hang as e:          # iteration does not terminate
+            raised = "HANG"
+            foreign = RuntimeError(str(e))
         except Exception as e:  # pylint: disable=broad-except
             raised = impl.exn_name(e)
             foreign = e
